@@ -575,6 +575,7 @@ func (x *Executor) execBlock(fr *Frame, b *ssa.BasicBlock, st *State, reach stri
 	u := x.u
 	for _, in := range b.Instrs {
 		u.curPos = x.pos(fr.fn, in.Pos())
+		x.curFrame = fr
 		switch t := in.(type) {
 		case *ssa.Phi, *ssa.DebugRef:
 			continue
@@ -918,6 +919,9 @@ func (x *Executor) store(st *State, a *Addr, v Val, reach string) {
 		x.recordLocalTaint(v)
 	case "field":
 		comp, _ := u.fieldComp(a.Struct, a.Field)
+		if len(a.Path) == 0 {
+			x.atStoreObligations(st, a, fmt.Sprintf("(select %s %s)", x.heapGet(st, comp), a.Ref), v, reach)
+		}
 		x.heapSet(st, comp, fmt.Sprintf("(store %s %s %s)", x.heapGet(st, comp), a.Ref, nv))
 	case "elem":
 		comp, _ := u.elemComp(a.ElemT)
@@ -930,6 +934,42 @@ func (x *Executor) store(st *State, a *Addr, v Val, reach string) {
 		x.heapSet(st, a.Global, nv)
 	}
 	x.guardWrites(st, a, reach)
+}
+
+// atStoreObligations: the enclosing contract may constrain stores to a named field.
+func (x *Executor) atStoreObligations(st *State, a *Addr, oldT string, nv Val, reach string) {
+	fr := x.curFrame
+	if fr == nil || x.topCon == nil || len(x.topCon.AtStore) == 0 {
+		return
+	}
+	n, ok := a.Struct.(*types.Named)
+	if !ok {
+		return
+	}
+	key := n.Obj().Name() + "." + a.Field
+	cls := x.topCon.AtStore[key]
+	if cls == nil {
+		return
+	}
+	u := x.u
+	fty := fieldType(u, a.Struct, a.Field)
+	vars := map[string]Val{"old": {T: oldT, Ty: fty}, "new": {T: nv.T, Ty: fty}}
+	for k, v := range x.topVars {
+		if _, taken := vars[k]; !taken {
+			vars[k] = v
+		}
+	}
+	env := &Env{x: x, u: u, vars: vars, bound: map[string]Val{}, st: st, old: x.entry, pkg: x.topPkg, localsAfter: x.localsLookup(fr, st)}
+	for _, cl := range cls {
+		t, err := env.Eval(cl.E)
+		o := &Obligation{Name: fmt.Sprintf("%s#atstore:%s:requires%s", fr.prefix, key, clauseLabel(cl)), Kind: "ensures", Clause: "at store to " + key + ": " + cl.Src, For: cl.For}
+		if err != nil {
+			o.Fail = err.Error()
+		} else {
+			o.Goal = fmt.Sprintf("(=> %s %s)", reach, t.T)
+		}
+		u.addObl(o)
+	}
 }
 
 // guardWrites is a hook for field-write guards (two-state conditions on every store to a field).
